@@ -18,6 +18,23 @@
 //  3. Content and end-state: no response or websocket message carries a sentinel's
 //     content; afterwards the sentinels are byte- and mtime-identical and nothing new
 //     exists outside the roots.
+//
+// Violation keys:
+//
+//	validator-disagrees:validGroupName:<class>   validator-disagrees:validUsername:<class>
+//	parse-accepts-name-group-layer-rejects:<class>   sanitise-leaves-separator
+//	write-outside-roots:<syscall>:<kind>   read-outside-roots:<kind>
+//	sentinel-touched:<syscall>:<kind>[:trailing-slash|:via-symlink|:via-symlink-trailing-slash]
+//	sentinel-content-served:<kind>   sentinel-name-listed:<kind>
+//	sentinel-modified   file-created-outside-roots
+//	recording-outside-group-dir   recording-outside-group-dir:not-created
+//	invalid-name-accepted:join-group:<class>   invalid-name-accepted:join-username:<class>
+//	groups-dir-symlink-followed:{read,write,content-served}   (dedicated batch only)
+//
+// The suffix of sentinel-touched tells how the location outside the roots was reached: no
+// suffix = the lexically normalised path is already outside (classic traversal); via-symlink =
+// only the symlink-resolved view is outside; trailing-slash = the path argument ends in '/',
+// so only a directory can have been reached.
 package main
 
 import (
@@ -377,6 +394,10 @@ func batchChild() {
 	d := os.Getenv("VERIF_CHILD_DIR")
 	out := os.Getenv("VERIF_CHILD_OUT")
 	lay := newLayout(d, out, a.GroupSymlinks)
+	if len(lay.Root)+2 > 100 {
+		run.Inconclusive("the scratch path is too long for the server's unix socket: " + lay.Root)
+		os.Exit(0)
+	}
 	if err := lay.build(); err != nil {
 		run.Inconclusive("cannot build the batch tree: " + err.Error())
 		os.Exit(0)
@@ -607,8 +628,8 @@ func main() {
 	runBatch(run, batchArgs{Index: 0, Batches: 0, BaselineOut: baselineFile})
 
 	// 2. hostile batches
-	batches := run.Pick(10, 48)
-	random := run.Pick(450, 6000)
+	batches := run.Pick(10, 96)
+	random := run.Pick(700, 7000)
 	symBatches := run.Pick(1, 2)
 	sem := make(chan struct{}, run.Pick(10, 12))
 	var launched atomic.Int64
